@@ -103,6 +103,7 @@ import (
 	"testing"
 	"time"
 
+	"github.com/google/uuid"
 	egctx "github.com/megaease/easegress/pkg/context"
 	"github.com/megaease/easegress/pkg/logger"
 	"github.com/megaease/easegress/pkg/object/serviceregistry"
@@ -146,6 +147,15 @@ type c04Updater struct {
 	Updates []c04Update `json:"updates"`
 }
 
+// c04Reload is one hot reload of a discovery-backed pool (watcher mode): a new
+// generation of the slot's pool is created and published, then the old one is
+// closed (the order Pipeline.Inherit uses).
+type c04Reload struct {
+	GapUs  int64 `json:"gap_us"`
+	Slot   int   `json:"slot"`
+	HoldUs int64 `json:"hold_us"` // between publishing the new generation and closing the old one: -1 nothing, 0 gate, >0 sleep
+}
+
 type c04Op struct {
 	GapUs  int64  `json:"gap_us"`
 	IP     string `json:"ip"`
@@ -156,6 +166,7 @@ type c04Op struct {
 	Mirror bool   `json:"mirror"`
 	HoldUs int64  `json:"hold_us"` // inside the transport stub: -1 no gate, 0 gate, >0 sleep
 	Fails  int    `json:"fails"`   // the first Fails transport calls of this request answer with an error
+	Slot   int    `json:"slot"`    // which pool of the scenario serves the request (0 main, 1 second pool if there is one)
 }
 
 type c04Selector struct {
@@ -173,6 +184,9 @@ type c04Scenario struct {
 	Retry       *c04Retry     `json:"retry,omitempty"`
 	Watcher     bool          `json:"watcher"`    // discovery through the real ServiceRegistry + the pool's own watchServers goroutine
 	InitInsts   []c04Inst     `json:"init_insts"` // watcher mode: what the registry holds when the pool is created
+	SecondPool  bool          `json:"second_pool"` // watcher mode: a second pool (candidate / other proxy) watches the same service
+	Pool2Tags   []string      `json:"pool2_tags"`  // its serverTags (empty: same as the main pool's)
+	Reloads     []c04Reload   `json:"reloads"`     // watcher mode: hot reloads (new pool generation created, then the old one closed)
 }
 
 func c04Gen(rng *sim.Rand, tier string) interface{} {
@@ -250,10 +264,19 @@ func c04Gen(rng *sim.Rand, tier string) interface{} {
 		if rng.Bool(0.15) {
 			nTasks = 2
 		}
-		sc.Watcher = rng.Bool(0.35)
+		sc.Watcher = rng.Bool(0.42)
 		if sc.Watcher {
 			nUpd = rng.Range(1, 6)
 		}
+		// morph: the reports keep the instance URLs of the previous one and change
+		// only weights (to and from 0) and tags (instances losing / gaining the
+		// pool's serverTags)
+		morph := rng.Bool(0.45)
+		if morph && nUpd < 2 {
+			nUpd = rng.Range(2, 4)
+		}
+		var prev []c04Inst
+		fresh := 0
 		sc.Updaters = make([]c04Updater, nTasks)
 		type addr struct {
 			a string
@@ -277,8 +300,26 @@ func c04Gen(rng *sim.Rand, tier string) interface{} {
 			if retry {
 				u.GapUs = int64(rng.Pick(0, 50, 200, 600, 1500, 4000, 12000))
 			}
+			if morph && len(prev) > 0 {
+				u.Insts = c04Morph(rng, prev, sc.ServerTags, weighted, &fresh)
+				prev = u.Insts
+				if uid < 0 {
+					sc.InitInsts = u.Insts
+					continue
+				}
+				t := rng.Intn(nTasks)
+				if sc.Watcher && len(sc.Updaters[t].Updates) > 0 && rng.Bool(0.4) {
+					u.Burst, u.GapUs = true, 0
+				}
+				sc.Updaters[t].Updates = append(sc.Updaters[t].Updates, u)
+				continue
+			}
 			ni := rng.Pick(0, 1, 1, 2, 3, 3, 5, 8)
 			pMatch := rng.Pick(0, 50, 80, 100, 100)
+			if morph {
+				ni = rng.Pick(2, 2, 3, 4, 5)
+				pMatch = rng.Pick(80, 100, 100)
+			}
 			wmode := "any"
 			if weighted {
 				switch x := rng.Intn(100); {
@@ -347,6 +388,7 @@ func c04Gen(rng *sim.Rand, tier string) interface{} {
 					}
 				}
 			}
+			prev = u.Insts
 			if uid < 0 {
 				sc.InitInsts = u.Insts
 				continue
@@ -356,6 +398,31 @@ func c04Gen(rng *sim.Rand, tier string) interface{} {
 				u.Burst, u.GapUs = true, 0
 			}
 			sc.Updaters[t].Updates = append(sc.Updaters[t].Updates, u)
+		}
+		if sc.Watcher {
+			// a second pool on the same service, hot reloads of either pool
+			if rng.Bool(0.35) {
+				sc.SecondPool = true
+				if rng.Bool(0.5) {
+					sc.Pool2Tags = []string{otherTags[0]}
+					if rng.Bool(0.3) {
+						sc.Pool2Tags = append(sc.Pool2Tags, sc.ServerTags[0])
+					}
+				}
+			}
+			if rng.Bool(0.55) {
+				nRel := rng.Pick(1, 2, 2, 3, 3, 4)
+				for i := 0; i < nRel; i++ {
+					rl := c04Reload{GapUs: int64(rng.Pick(0, 1, 10, 100, 300, 1000, 3000)), HoldUs: int64(rng.Pick(-1, -1, 0, 10, 200))}
+					if retry {
+						rl.GapUs = int64(rng.Pick(0, 100, 600, 2000, 6000))
+					}
+					if sc.SecondPool && rng.Bool(0.4) {
+						rl.Slot = 1
+					}
+					sc.Reloads = append(sc.Reloads, rl)
+				}
+			}
 		}
 	}
 
@@ -394,6 +461,9 @@ func c04Gen(rng *sim.Rand, tier string) interface{} {
 				}
 			}
 			op.Mirror = rng.Intn(100) < mirrorPct
+			if sc.SecondPool && rng.Bool(0.4) {
+				op.Slot = 1
+			}
 			if holdy {
 				op.HoldUs = int64(rng.Pick(-1, 0, 0, 1, 100))
 			}
@@ -413,6 +483,53 @@ func c04Gen(rng *sim.Rand, tier string) interface{} {
 		sc.Selectors = append(sc.Selectors, sel)
 	}
 	return sc
+}
+
+// c04Morph derives the next discovery report from the previous one: the same
+// instances (ids, addresses), of which some change their weight (to 0, from 0,
+// to another positive value) or lose / gain a serverTag of the pool; rarely an
+// instance leaves or a new one joins.
+func c04Morph(rng *sim.Rand, prev []c04Inst, serverTags []string, weighted bool, fresh *int) []c04Inst {
+	out := make([]c04Inst, 0, len(prev)+1)
+	pW, pT := 30, 22
+	if weighted {
+		pW, pT = 45, 12
+	}
+	for _, in := range prev {
+		in.Tags = append([]string(nil), in.Tags...)
+		switch x := rng.Intn(100); {
+		case x < pW:
+			switch {
+			case in.Weight == 0:
+				in.Weight = rng.Pick(1, 5, 50, 100)
+			case rng.Bool(0.6):
+				in.Weight = 0
+			default:
+				in.Weight = rng.Range(1, 100)
+			}
+		case x < pW+pT:
+			if c04Tagged(serverTags, in.Tags) {
+				var kept []string
+				for _, t := range in.Tags {
+					if !c04Tagged(serverTags, []string{t}) {
+						kept = append(kept, t)
+					}
+				}
+				in.Tags = kept
+			} else {
+				in.Tags = append(in.Tags, serverTags[rng.Intn(len(serverTags))])
+			}
+		case x < pW+pT+4:
+			continue
+		}
+		out = append(out, in)
+	}
+	if rng.Bool(0.06) {
+		*fresh++
+		out = append(out, c04Inst{ID: fmt.Sprintf("n%d", *fresh), Addr: fmt.Sprintf("10.4.0.%d", *fresh), Port: 9100,
+			Weight: rng.Pick(0, 1, 10), Tags: []string{serverTags[0]}})
+	}
+	return out
 }
 
 // ---- reference model ----------------------------------------------------------
@@ -443,7 +560,11 @@ type c04Generation struct {
 	start, end int           // harness stamps: reported / known to be in force (installed)
 	endT       time.Duration // virtual time of end
 	installed  bool
-	fifo       int // watcher mode: index of the discovery report (applied in this order by one goroutine); -1 otherwise
+	fifo       int // watcher mode: position of the report in the pool's event queue (applied in this order by one goroutine); -1 otherwise
+	bornT      time.Duration // watcher mode: virtual time at which the report was made
+	optional   bool          // reported while the pool was being closed: may or may not have been applied
+	// probes only: relation to the report before it / to the pool's history
+	weightOnly, tagOnly, afterReload bool
 	src        string
 	weight     map[string]int // url -> weight
 	n, total   int
@@ -472,10 +593,30 @@ func (g *c04Generation) describe() string {
 	return b.String()
 }
 
+// c04Model is the reference for ONE pool object (one generation of one slot).
 type c04Model struct {
-	sc     *c04Scenario
+	tags   []string
 	static map[string]int
 	gens   []*c04Generation
+}
+
+const (
+	c04Creating = iota // NewServerPool running, watcher not registered yet
+	c04Live            // watching (registered with the registry) / usable
+	c04Closing         // close() running
+	c04Closed
+)
+
+// c04Pool is one ServerPool object of the run with its reference model.
+type c04Pool struct {
+	name      string
+	slot      int
+	gen       int // 0 = the pool created at start, k = created by the k-th reload of the slot
+	sp        *ServerPool
+	model     *c04Model
+	state     int
+	queued    int // events handed to this pool's watcher so far
+	selecting int // selections in flight on this pool
 }
 
 func (m *c04Model) newGen(src string, list map[string]int, start int) *c04Generation {
@@ -492,7 +633,7 @@ func (m *c04Model) newGen(src string, list map[string]int, start int) *c04Genera
 func (m *c04Model) listFor(insts []c04Inst) (map[string]int, string) {
 	list := map[string]int{}
 	for _, in := range insts {
-		if c04Tagged(m.sc.ServerTags, in.Tags) {
+		if c04Tagged(m.tags, in.Tags) {
 			list[c04InstURL(in)] = in.Weight
 		}
 	}
@@ -551,6 +692,7 @@ func c04Desc(gs []*c04Generation) string {
 
 type c04Sel struct {
 	name      string
+	pool      *c04Pool
 	s         int
 	sT        time.Duration
 	prevEnd   int           // stamp at which the previous transport call of this request returned
@@ -582,7 +724,32 @@ type c04Registry struct {
 	cur     []c04Inst
 	pending [][]c04Inst
 	service string
-	onList  func(insts []c04Inst)
+	onList  func(kind string, insts []c04Inst)
+}
+
+// c04ListKind tells on whose behalf the registry driver is asked for the
+// instances of the service: "dispatch" = the ServiceRegistry handles a
+// notification (the listing is the discovery report sent to every watcher of
+// the service), "initial" = NewServiceWatcher builds the first event of a new
+// watcher, "sync" = the synchronous first listing of ServerPool.watchServers.
+func c04ListKind() string {
+	var pcs [24]uintptr
+	n := runtime.Callers(2, pcs[:])
+	frames := runtime.CallersFrames(pcs[:n])
+	for {
+		f, more := frames.Next()
+		switch {
+		case strings.HasSuffix(f.Function, ").NewServiceWatcher"):
+			return "initial"
+		case strings.HasSuffix(f.Function, ")._handleRegistryEvent"):
+			return "dispatch"
+		case strings.HasSuffix(f.Function, ").watchServers"):
+			return "sync"
+		}
+		if !more {
+			return ""
+		}
+	}
 }
 
 func (f *c04Registry) Name() string                                  { return "c04reg" }
@@ -597,12 +764,13 @@ func (f *c04Registry) GetServiceInstance(serviceName, instanceID string) (*servi
 	return nil, fmt.Errorf("not found")
 }
 func (f *c04Registry) ListServiceInstances(serviceName string) (map[string]*serviceregistry.ServiceInstanceSpec, error) {
-	if len(f.pending) > 0 {
+	kind := c04ListKind()
+	if kind == "dispatch" && len(f.pending) > 0 {
 		f.cur = f.pending[0]
 		f.pending = f.pending[1:]
 	}
 	if f.onList != nil {
-		f.onList(f.cur)
+		f.onList(kind, f.cur)
 	}
 	return c04InstMap(f.cur, f.service), nil
 }
@@ -637,6 +805,21 @@ func c04InstMap(used []c04Inst, service string) map[string]*serviceregistry.Serv
 			Address: in.Addr, Port: uint16(in.Port), Scheme: in.Scheme, Weight: in.Weight, Tags: append([]string(nil), in.Tags...)}
 	}
 	return m
+}
+
+// c04UUIDSrc is a reproducible randomness source for google/uuid: the n-th
+// UUID of a run carries n in its first four bytes.
+type c04UUIDSrc struct{ n uint32 }
+
+func (u *c04UUIDSrc) Read(p []byte) (int, error) {
+	for i := range p {
+		p[i] = 0
+	}
+	u.n++
+	if len(p) >= 4 {
+		p[0], p[1], p[2], p[3] = byte(u.n>>24), byte(u.n>>16), byte(u.n>>8), byte(u.n)
+	}
+	return len(p), nil
 }
 
 var (
@@ -686,22 +869,52 @@ func c04Exec(r *sim.Run, sci interface{}) {
 		}
 		maxAttempts, wait = rt.MaxAttempts, time.Duration(rt.WaitMs)*time.Millisecond
 	}
+	nSlots := 1
+	slotTags := [][]string{sc.ServerTags, sc.ServerTags}
+	reloads := sc.Reloads
+	if watcher && sc.SecondPool {
+		nSlots = 2
+		if len(sc.Pool2Tags) > 0 {
+			slotTags[1] = sc.Pool2Tags
+		}
+	}
+	if !watcher {
+		reloads = nil
+	}
+	nNotif := 0
+	for _, u := range updaters {
+		nNotif += len(u.Updates)
+	}
+	if watcher && nNotif > 8 {
+		return // a watcher's event queue holds 10 events; a full queue blocks the registry (outside this property)
+	}
 
 	// --- system under test
-	spec := &ServerPoolSpec{ServiceName: sc.ServiceName, ServerTags: append([]string(nil), sc.ServerTags...)}
-	if policy != "" {
-		spec.LoadBalance = &LoadBalanceSpec{Policy: policy, HeaderHashKey: sc.HashKey}
-	}
-	model := &c04Model{sc: sc, static: map[string]int{}}
+	static := map[string]int{}
 	for _, s := range sc.Static {
 		url := "http://" + s.Host
-		if _, dup := model.static[url]; dup || s.Host == "" || s.Weight < 0 {
+		if _, dup := static[url]; dup || s.Host == "" || s.Weight < 0 {
 			return
 		}
-		model.static[url] = s.Weight
-		spec.Servers = append(spec.Servers, &Server{URL: url, Weight: s.Weight, Tags: append([]string(nil), sc.ServerTags...)})
+		static[url] = s.Weight
 	}
-	if err := spec.Validate(); err != nil {
+	buildSpec := func(slot int) *ServerPoolSpec {
+		spec := &ServerPoolSpec{ServiceName: sc.ServiceName, ServerTags: append([]string(nil), slotTags[slot]...)}
+		if policy != "" {
+			spec.LoadBalance = &LoadBalanceSpec{Policy: policy, HeaderHashKey: sc.HashKey}
+		}
+		for _, s := range sc.Static {
+			spec.Servers = append(spec.Servers, &Server{URL: "http://" + s.Host, Weight: s.Weight, Tags: append([]string(nil), slotTags[slot]...)})
+		}
+		if sc.Retry != nil {
+			spec.RetryPolicy = "c04retry"
+		}
+		if watcher {
+			spec.ServiceRegistry = "c04reg"
+		}
+		return spec
+	}
+	if err := buildSpec(0).Validate(); err != nil {
 		r.Probe("c04.validate_rejected")
 		return
 	}
@@ -713,7 +926,6 @@ func c04Exec(r *sim.Run, sci interface{}) {
 			return
 		}
 		policies["c04retry"] = p
-		spec.RetryPolicy = "c04retry"
 	}
 	saved := fnSendRequest
 	defer func() { fnSendRequest = saved }()
@@ -734,15 +946,17 @@ func c04Exec(r *sim.Run, sci interface{}) {
 		return strings.Join(h, " ")
 	}
 	inflight := map[string]*c04Sel{}
-	selecting := 0
+	var pools []*c04Pool // every pool object of the run, in creation order
+	slots := make([]*c04Pool, nSlots)
 	maxSelecting, maxOpen, open := 0, 0, 0
 	var fairChecked, stickyRepeated, zeroWeightMember, noServer, overlapSeen, retryAfterReplacement bool
+	var weightOnlyServed, tagOnlyServed, servedAfterReload, reportAfterReloadServed bool
 
-	fairCheck := func(when string) {
+	fairCheck := func(p *c04Pool, when string) {
 		if policy != LoadBalancePolicyRoundRobin || r.Violated() {
 			return
 		}
-		for _, g := range model.gens {
+		for _, g := range p.model.gens {
 			if g.n == 0 {
 				continue
 			}
@@ -756,8 +970,8 @@ func c04Exec(r *sim.Run, sci interface{}) {
 				}
 			}
 			if maxSure-1 > minAll {
-				r.Violate("C04.rr-unfair", "roundRobin, %s, no selection in flight: some server of generation %d was chosen %d times while another at most %d times\n%s\nhistory: %s",
-					when, g.id, maxSure, minAll, g.describe(), history())
+				r.Violate("C04.rr-unfair", "roundRobin, %s, no selection in flight on pool %s: some server of generation %d was chosen %d times while another at most %d times\n%s\nhistory: %s",
+					when, p.name, g.id, maxSure, minAll, g.describe(), history())
 				return
 			}
 			if g.n >= 2 && g.k >= g.n {
@@ -769,9 +983,9 @@ func c04Exec(r *sim.Run, sci interface{}) {
 	selectionMade := func(st *c04Sel) {
 		if st.selecting {
 			st.selecting = false
-			selecting--
-			if selecting == 0 {
-				fairCheck("mid-run")
+			st.pool.selecting--
+			if st.pool.selecting == 0 {
+				fairCheck(st.pool, "mid-run")
 			}
 		}
 	}
@@ -804,7 +1018,7 @@ func c04Exec(r *sim.Run, sci interface{}) {
 				// the retry wrapper will select again: from here to the next
 				// transport call (or the return) a selection may be in flight
 				st.selecting = true
-				selecting++
+				st.pool.selecting++
 			}
 		}
 		if fail {
@@ -814,11 +1028,12 @@ func c04Exec(r *sim.Run, sci interface{}) {
 	}
 
 	// --- discovery plumbing (watcher mode): real ServiceRegistry, fake driver
-	var sent int // notifications handed to the registry (incl. the watcher's initial event)
+	var sentT []time.Duration // virtual send time of every notification handed to the registry
+	dispatched := 0           // notifications the registry has turned into a report (one listing per notification)
 	var fake *c04Registry
 	var sreg *serviceregistry.ServiceRegistry
+	var creating *c04Pool // the pool whose NewServerPool is running (creations never overlap)
 	px := &Proxy{spec: &Spec{}}
-	booting := true
 	reportProbes := func(g *c04Generation, nUsed int) {
 		switch {
 		case g.src == "fallback" && nUsed > 0:
@@ -848,6 +1063,86 @@ func c04Exec(r *sim.Run, sci interface{}) {
 			}
 		}
 	}
+	// relation of a new report to the one before it in the same pool's queue
+	// (probes only): same URLs with other weights, same instances with other tags
+	var prevInsts []c04Inst
+	relProbes := func(p *c04Pool, g *c04Generation, insts []c04Inst) {
+		var last *c04Generation
+		for i := len(p.model.gens) - 2; i >= 0; i-- {
+			if !p.model.gens[i].optional {
+				last = p.model.gens[i]
+				break
+			}
+		}
+		if last == nil || last.src != "discovery" || g.src != "discovery" {
+			return
+		}
+		same := len(last.weight) == len(g.weight)
+		wdiff, toZero, fromZero := false, false, false
+		for u, w := range g.weight {
+			lw, ok := last.weight[u]
+			if !ok {
+				same = false
+				break
+			}
+			if lw != w {
+				wdiff = true
+				if w == 0 {
+					toZero = true
+				}
+				if lw == 0 {
+					fromZero = true
+				}
+			}
+		}
+		if same && wdiff {
+			g.weightOnly = true
+			r.Probe("c04.report_same_urls_other_weights")
+			if toZero && g.total > 0 {
+				r.Probe("c04.report_same_urls_weight_to_zero")
+			}
+			if fromZero {
+				r.Probe("c04.report_same_urls_weight_from_zero")
+			}
+		}
+		if same && !wdiff {
+			r.Probe("c04.report_identical_list")
+		}
+	}
+	tagProbes := func(p *c04Pool, g *c04Generation, insts []c04Inst) {
+		// same instance addresses as the previous report, but the set tagged for this pool differs
+		if prevInsts == nil || len(prevInsts) != len(insts) {
+			return
+		}
+		was := map[string]bool{}
+		for _, in := range prevInsts {
+			was[c04InstURL(in)] = c04Tagged(p.model.tags, in.Tags)
+		}
+		lost, gained := false, false
+		for _, in := range insts {
+			w, ok := was[c04InstURL(in)]
+			if !ok {
+				return
+			}
+			now := c04Tagged(p.model.tags, in.Tags)
+			if w && !now {
+				lost = true
+			}
+			if !w && now {
+				gained = true
+			}
+		}
+		if lost || gained {
+			g.tagOnly = true
+		}
+		if lost {
+			r.Probe("c04.report_same_instances_tag_lost")
+		}
+		if gained {
+			r.Probe("c04.report_same_instances_tag_gained")
+		}
+	}
+	cleaned := false
 	if watcher {
 		if c04RegistrySpec == nil {
 			sp0, err := supervisor.NewDefaultMock().NewSpec("name: service-registry\nkind: ServiceRegistry\nsyncInterval: 10s\n")
@@ -864,21 +1159,76 @@ func c04Exec(r *sim.Run, sci interface{}) {
 		}
 		sreg = ent.Instance().(*serviceregistry.ServiceRegistry)
 		sreg.Init(c04RegistrySpec)
+		// watcher ids are random UUIDs and the registry sends a report to its
+		// watchers in map order: give the ids a reproducible source (unique per
+		// run, creation-ordered), the map range itself is determinised by
+		// check.json map_ranges
+		uuid.SetRand(&c04UUIDSrc{})
+		defer uuid.SetRand(nil)
 		fake = &c04Registry{notify: make(chan *serviceregistry.RegistryEvent, 64), cur: c04Usable(sc.InitInsts), service: sc.ServiceName}
-		nReports := 0
-		fake.onList = func(insts []c04Inst) {
-			list, src := model.listFor(insts)
-			g := model.newGen(src, list, stamp())
-			if booting && nReports == 0 {
-				// the synchronous first listing of watchServers: in force when NewServerPool returns
-				g.start, g.installed = 0, true
-			} else {
-				g.fifo = nReports - 1
+		fake.onList = func(kind string, insts []c04Inst) {
+			if cleaned {
+				return
 			}
-			nReports++
-			note("report%d:gen%d(%s,n=%d)@%d", g.fifo, g.id, src, g.n, g.start)
-			r.Eventf("report %d gen%d %s n=%d total=%d", g.fifo, g.id, src, g.n, g.total)
-			reportProbes(g, len(insts))
+			switch kind {
+			case "sync":
+				// the synchronous first listing of watchServers: in force when NewServerPool returns
+				p := creating
+				if p == nil {
+					return
+				}
+				list, src := p.model.listFor(insts)
+				g := p.model.newGen(src, list, 0)
+				g.installed, g.bornT = true, r.Now()
+				note("%s:sync:gen%d(%s,n=%d)", p.name, g.id, src, g.n)
+				r.Eventf("%s sync listing gen%d %s n=%d total=%d", p.name, g.id, src, g.n, g.total)
+				reportProbes(g, len(insts))
+			case "initial":
+				// first event of the new watcher; from here on the pool is registered
+				p := creating
+				if p == nil {
+					return
+				}
+				list, src := p.model.listFor(insts)
+				g := p.model.newGen(src, list, stamp())
+				g.fifo, g.bornT = p.queued, r.Now()
+				p.queued++
+				p.state = c04Live
+				note("%s:report%d:gen%d(%s,n=%d)@%d", p.name, g.fifo, g.id, src, g.n, g.start)
+				r.Eventf("%s initial event gen%d %s n=%d total=%d", p.name, g.id, src, g.n, g.total)
+				reportProbes(g, len(insts))
+			case "dispatch":
+				dispatched++
+				e := stamp()
+				nTo := 0
+				for _, p := range pools {
+					if p.state != c04Live && p.state != c04Closing {
+						continue
+					}
+					nTo++
+					list, src := p.model.listFor(insts)
+					g := p.model.newGen(src, list, e)
+					g.fifo, g.bornT = p.queued, r.Now()
+					p.queued++
+					if p.state == c04Closing {
+						g.optional = true
+						r.Probe("c04.report_while_pool_closing")
+					}
+					note("%s:report%d:gen%d(%s,n=%d)@%d", p.name, g.fifo, g.id, src, g.n, g.start)
+					r.Eventf("%s report %d gen%d %s n=%d total=%d", p.name, g.fifo, g.id, src, g.n, g.total)
+					reportProbes(g, len(insts))
+					relProbes(p, g, insts)
+					tagProbes(p, g, insts)
+					if len(pools) > nSlots && p == slots[p.slot] {
+						g.afterReload = true
+						r.Probe("c04.report_to_reloaded_pool")
+					}
+				}
+				prevInsts = insts
+				if nTo >= 2 {
+					r.Probe("c04.report_to_two_pools")
+				}
+			}
 		}
 		if err := sreg.RegisterRegistry(fake); err != nil {
 			r.Violate("C04.other", "harness: RegisterRegistry: %v", err)
@@ -887,16 +1237,9 @@ func c04Exec(r *sim.Run, sci interface{}) {
 		var sys sync.Map
 		sys.Store(serviceregistry.Kind, ent)
 		px.super = supervisor.NewMock(nil, nil, sync.Map{}, sys, nil, nil, false, nil, nil)
-		spec.ServiceRegistry = "c04reg"
-		sent = 1
 	}
-	sp := NewServerPool(px, spec, "c04pool")
-	booting = false
-	if len(policies) > 0 {
-		sp.InjectResiliencePolicy(policies)
-	}
-	cleaned := false
-	// cleanup stops the pool's watcher goroutine and the registry's dispatcher.
+
+	// cleanup stops the pools' watcher goroutines and the registry's dispatcher.
 	// Notifications not yet taken are withdrawn first: DeregisterRegistry clears
 	// bucket.registry, which a dispatcher that still finds an event would
 	// dereference (outside this property).
@@ -910,46 +1253,105 @@ func c04Exec(r *sim.Run, sci interface{}) {
 			for len(fake.notify) > 0 {
 				<-fake.notify
 			}
-			if wait {
-				sp.close()
-			} else {
-				close(sp.done)
+			for _, p := range pools {
+				if p.sp == nil || p.state == c04Closing || p.state == c04Closed {
+					continue
+				}
+				p.state = c04Closed
+				if wait {
+					p.sp.close()
+				} else {
+					close(p.sp.done)
+				}
 			}
 			sreg.DeregisterRegistry("c04reg")
 		}()
 	}
 	defer cleanup(false)
-	if !watcher {
-		g0 := model.newGen("static", model.static, 0)
-		g0.installed = true
-		if weighted && g0.n > 0 && g0.total == 0 {
-			r.Probe("c04.weighted_static_all_zero")
+
+	nGen := make([]int, nSlots)
+	// newPool creates the next generation of a slot's pool (not published yet).
+	newPool := func(slot int) *c04Pool {
+		p := &c04Pool{name: fmt.Sprintf("p%d.%d", slot, nGen[slot]), slot: slot, gen: nGen[slot], model: &c04Model{tags: slotTags[slot], static: static}}
+		nGen[slot]++
+		pools = append(pools, p)
+		spec := buildSpec(slot)
+		if watcher {
+			creating = p
 		}
-		if g0.n == 1 {
-			r.Probe("c04.single_server_list")
+		var pnc interface{}
+		var stack string
+		func() {
+			defer func() {
+				if x := recover(); x != nil {
+					pnc, stack = x, c04Stack()
+				}
+			}()
+			p.sp = NewServerPool(px, spec, "c04pool-"+p.name)
+			if len(policies) > 0 {
+				p.sp.InjectResiliencePolicy(policies)
+			}
+		}()
+		creating = nil
+		if pnc != nil {
+			r.Violate("C04.panic", "creating pool %s panicked: %v\n%s\nhistory: %s", p.name, pnc, stack, history())
+			return nil
 		}
-	} else if len(model.gens) == 0 {
-		r.Violate("C04.other", "watchServers did not list the service instances when the pool was created")
-		return
+		if !watcher {
+			g0 := p.model.newGen("static", static, 0)
+			g0.installed = true
+			if weighted && g0.n > 0 && g0.total == 0 {
+				r.Probe("c04.weighted_static_all_zero")
+			}
+			if g0.n == 1 {
+				r.Probe("c04.single_server_list")
+			}
+			p.state = c04Live
+		} else if len(p.model.gens) == 0 || p.state != c04Live {
+			r.Violate("C04.other", "watchServers of pool %s did not list the service instances / did not create a watcher when the pool was created", p.name)
+			return nil
+		}
+		return p
+	}
+	for s := 0; s < nSlots; s++ {
+		if slots[s] = newPool(s); slots[s] == nil {
+			return
+		}
+	}
+	if nSlots == 2 {
+		r.Probe("c04.two_pools_one_service")
 	}
 
 	// settle lets d of virtual time pass. If the scheduler took no stall decision
 	// meanwhile, the clock can only have advanced while every goroutine (the
-	// registry's dispatcher and the pool's watcher included) was blocked with
-	// nothing left to do, so every report belonging to a notification sent before
-	// the call is in force when it returns.
+	// registry's dispatcher and the pools' watchers included) was blocked with
+	// nothing left to do. So every notification sent at an earlier virtual instant
+	// than the one at which the call returns has been turned into a report, and
+	// every report made at an earlier instant is in force in every pool that is
+	// still watching.
 	settle := func(d time.Duration) bool {
-		sentBefore := sent
 		s0 := r.StalledFor()
 		r.Sleep(d)
-		if d <= 0 || r.StalledFor() != s0 || r.Aborted() {
+		if d <= 0 || r.StalledFor() != s0 || r.Aborted() || r.Violated() || cleaned {
 			return false
 		}
 		e, now := stamp(), r.Now()
-		for _, g := range model.gens {
-			if g.fifo >= 0 && g.fifo < sentBefore && !g.installed {
-				g.installed, g.end, g.endT = true, e, now
-				note("settled:gen%d@%d", g.id, e)
+		for i, t := range sentT {
+			if t < now && i >= dispatched {
+				r.Violate("C04.discovery-report-lost", "notification #%d of the registry (sent at %v) was never turned into a report for the service although %d pool(s) watch it and every goroutine has been idle since (now %v); %d of %d notifications were reported\nhistory: %s",
+					i+1, t, c04Watching(pools), now, dispatched, len(sentT), history())
+				return false
+			}
+		}
+		for _, p := range pools {
+			if p.state != c04Live {
+				continue
+			}
+			for _, g := range p.model.gens {
+				if g.fifo >= 0 && !g.installed && !g.optional && g.bornT < now {
+					g.installed, g.end, g.endT = true, e, now
+					note("settled:%s.gen%d@%d", p.name, g.id, e)
+				}
 			}
 		}
 		return true
@@ -963,6 +1365,7 @@ func c04Exec(r *sim.Run, sci interface{}) {
 	// and (documented: waitDuration between attempts) not before half of the
 	// configured wait has passed since.
 	forwarded = func(st *c04Sel, url string, attempt int) {
+		model := st.pool.model
 		e := stamp()
 		s, sT := st.s, st.sT
 		if attempt > 0 {
@@ -1003,11 +1406,11 @@ func c04Exec(r *sim.Run, sci interface{}) {
 		}
 		if len(expl) == 0 {
 			if !inList {
-				r.Violate("C04.foreign-server", "request %s attempt %d [%d,%d] was sent to %s, which is in no list that was current during the attempt; candidates:%s\nall generations:%s\nhistory: %s",
-					st.name, attempt, s, e, url, c04Desc(cands), c04Desc(model.gens), history())
+				r.Violate("C04.foreign-server", "request %s (pool %s) attempt %d [%d,%d] was sent to %s, which is in no list that was current during the attempt; candidates:%s\nall generations of the pool:%s\nhistory: %s",
+					st.name, st.pool.name, attempt, s, e, url, c04Desc(cands), c04Desc(model.gens), history())
 			} else {
-				r.Violate("C04.zero-weight-picked", "weightedRandom sent request %s attempt %d [%d,%d] to %s, which has weight 0 in every current list containing it although that list has positive weights; candidates:%s\nhistory: %s",
-					st.name, attempt, s, e, url, c04Desc(cands), history())
+				r.Violate("C04.zero-weight-picked", "weightedRandom sent request %s (pool %s) attempt %d [%d,%d] to %s, which has weight 0 in every current list containing it although that list has positive weights; candidates:%s\nhistory: %s",
+					st.name, st.pool.name, attempt, s, e, url, c04Desc(cands), history())
 			}
 			return
 		}
@@ -1021,6 +1424,20 @@ func c04Exec(r *sim.Run, sci interface{}) {
 		g := expl[0]
 		g.sure[url]++
 		g.k++
+		if len(cands) == 1 {
+			if g.weightOnly {
+				weightOnlyServed = true
+			}
+			if g.tagOnly {
+				tagOnlyServed = true
+			}
+			if g.afterReload {
+				reportAfterReloadServed = true
+			}
+			if st.pool.gen > 0 {
+				servedAfterReload = true
+			}
+		}
 		if weighted && g.total > 0 {
 			for _, w := range g.weight {
 				if w == 0 {
@@ -1032,8 +1449,8 @@ func c04Exec(r *sim.Run, sci interface{}) {
 		if st.key != "" {
 			if prev, ok := g.sticky[st.key]; ok {
 				if prev != url {
-					r.Violate("C04.hash-not-sticky", "%s: key %q went to %s and later (request %s) to %s within generation %d whose list did not change\n%s\nhistory: %s",
-						policy, st.key, prev, st.name, url, g.id, g.describe(), history())
+					r.Violate("C04.hash-not-sticky", "%s: key %q went to %s and later (request %s) to %s within generation %d of pool %s whose list did not change\n%s\nhistory: %s",
+						policy, st.key, prev, st.name, url, g.id, st.pool.name, g.describe(), history())
 					return
 				}
 				if g.n >= 2 {
@@ -1047,6 +1464,7 @@ func c04Exec(r *sim.Run, sci interface{}) {
 
 	// returned is evaluated when sp.handle has returned (or panicked).
 	returned := func(st *c04Sel, op c04Op, result string, status int, pnc interface{}, stack string) {
+		model := st.pool.model
 		nT := len(st.fwd)
 		success := result == "" && status == http.StatusOK
 		switch {
@@ -1102,8 +1520,8 @@ func c04Exec(r *sim.Run, sci interface{}) {
 				}
 			}
 			if !ok {
-				r.Violate("C04.no-server-but-list-nonempty", "request %s [%d,%d] was not forwarded (result %q, status %d, mirror=%v, max attempts %d) although no list current during its last attempt was empty; candidates:%s\nhistory: %s",
-					st.name, st.s, e, result, status, op.Mirror, maxAttempts, c04Desc(cands), history())
+				r.Violate("C04.no-server-but-list-nonempty", "request %s (pool %s) [%d,%d] was not forwarded (result %q, status %d, mirror=%v, max attempts %d) although no list current during its last attempt was empty; candidates:%s\nhistory: %s",
+					st.name, st.pool.name, st.s, e, result, status, op.Mirror, maxAttempts, c04Desc(cands), history())
 				return
 			}
 			noServer = true
@@ -1146,7 +1564,14 @@ func c04Exec(r *sim.Run, sci interface{}) {
 		ctx := egctx.New(tracing.NoopSpan)
 		ctx.SetRequest(egctx.DefaultNamespace, req)
 
-		st := &c04Sel{name: name, hold: op.HoldUs, selecting: true, fails: op.Fails, mirror: op.Mirror}
+		// the request is served by the generation of the slot's pool that is
+		// published now
+		slot := op.Slot
+		if slot < 0 || slot >= nSlots {
+			slot = 0
+		}
+		pool := slots[slot]
+		st := &c04Sel{name: name, pool: pool, hold: op.HoldUs, selecting: true, fails: op.Fails, mirror: op.Mirror}
 		if st.fails < 0 {
 			st.fails = 0
 		}
@@ -1161,17 +1586,17 @@ func c04Exec(r *sim.Run, sci interface{}) {
 			}
 		}
 		inflight[path] = st
-		selecting++
+		pool.selecting++
 		open++
-		if selecting > maxSelecting {
-			maxSelecting = selecting
+		if pool.selecting > maxSelecting {
+			maxSelecting = pool.selecting
 		}
 		if open > maxOpen {
 			maxOpen = open
 		}
 		st.s, st.sT = stamp(), r.Now()
-		note("%s+@%d", name, st.s)
-		r.Eventf("%s start mirror=%v fails=%d", name, op.Mirror, st.fails)
+		note("%s:%s+@%d", pool.name, name, st.s)
+		r.Eventf("%s start pool=%s mirror=%v fails=%d", name, pool.name, op.Mirror, st.fails)
 		if op.Mirror {
 			r.Probe("c04.mirror_selection")
 		}
@@ -1185,7 +1610,7 @@ func c04Exec(r *sim.Run, sci interface{}) {
 					stack = c04Stack()
 				}
 			}()
-			result = sp.handle(ctx, op.Mirror)
+			result = pool.sp.handle(ctx, op.Mirror)
 		}()
 		status := 0
 		if pnc == nil && !op.Mirror {
@@ -1198,12 +1623,15 @@ func c04Exec(r *sim.Run, sci interface{}) {
 		if r.Violated() {
 			return
 		}
+		if pool.state == c04Closing || pool.state == c04Closed {
+			r.Probe("c04.request_outlives_its_pool_generation")
+		}
 		returned(st, op, result, status, pnc, stack)
 		selectionMade(st)
 	}
 
 	if watcher {
-		// let the watcher's initial event (same list as the synchronous listing) take effect
+		// let the watchers' initial events (same list as the synchronous listing) take effect
 		if settle(time.Millisecond) {
 			r.Probe("c04.watcher_initial_event_settled")
 		}
@@ -1248,11 +1676,14 @@ func c04Exec(r *sim.Run, sci interface{}) {
 					}
 					used := c04Usable(u.Insts)
 					fake.pending = append(fake.pending, used)
-					sent++
-					note("u%d.%d:notify#%d@%d", ui, k, sent-1, stamp())
-					r.Eventf("u%d.%d notify #%d burst=%v", ui, k, sent-1, u.Burst)
+					sentT = append(sentT, r.Now())
+					note("u%d.%d:notify#%d@%d", ui, k, len(sentT), stamp())
+					r.Eventf("u%d.%d notify #%d burst=%v", ui, k, len(sentT), u.Burst)
 					if open > 0 {
 						r.Probe("c04.update_while_request_in_flight")
+					}
+					if creating != nil {
+						r.Probe("c04.notify_while_pool_being_created")
 					}
 					select {
 					case fake.notify <- &serviceregistry.RegistryEvent{SourceRegistryName: "c04reg", UseReplace: true, Replace: c04InstMap(used, sc.ServiceName)}:
@@ -1265,10 +1696,11 @@ func c04Exec(r *sim.Run, sci interface{}) {
 				if r.Violated() || r.Aborted() {
 					return
 				}
+				p := slots[0]
 				used := c04Usable(u.Insts)
 				insts := c04InstMap(used, sc.ServiceName)
-				list, src := model.listFor(used)
-				g := model.newGen(src, list, stamp())
+				list, src := p.model.listFor(used)
+				g := p.model.newGen(src, list, stamp())
 				note("u%d.%d+gen%d(%s,n=%d)@%d", ui, k, g.id, src, g.n, g.start)
 				r.Eventf("u%d.%d start gen%d %s n=%d total=%d", ui, k, g.id, src, g.n, g.total)
 				if updOpen > 0 {
@@ -1278,6 +1710,13 @@ func c04Exec(r *sim.Run, sci interface{}) {
 					r.Probe("c04.update_while_request_in_flight")
 				}
 				reportProbes(g, len(used))
+				if updOpen == 0 {
+					relProbes(p, g, used)
+					tagProbes(p, g, used)
+					prevInsts = used
+				} else {
+					prevInsts = nil
+				}
 				updOpen++
 				var pnc interface{}
 				func() {
@@ -1286,7 +1725,7 @@ func c04Exec(r *sim.Run, sci interface{}) {
 							pnc = p
 						}
 					}()
-					sp.useService(insts)
+					p.sp.useService(insts)
 				}()
 				updOpen--
 				g.installed, g.end, g.endT = true, stamp(), r.Now()
@@ -1299,44 +1738,114 @@ func c04Exec(r *sim.Run, sci interface{}) {
 			}
 		})
 	}
+	if len(reloads) > 0 {
+		r.Go("life", func() {
+			for k, rl := range reloads {
+				if r.Violated() || r.Aborted() {
+					return
+				}
+				r.Sleep(time.Duration(rl.GapUs) * time.Microsecond)
+				if r.Violated() || r.Aborted() || cleaned {
+					return
+				}
+				slot := rl.Slot
+				if slot < 0 || slot >= nSlots {
+					slot = 0
+				}
+				old := slots[slot]
+				note("reload%d:slot%d@%d", k, slot, stamp())
+				r.Eventf("reload %d slot %d: create", k, slot)
+				np := newPool(slot)
+				if np == nil {
+					return
+				}
+				slots[slot] = np
+				note("reload%d:%s->%s@%d", k, old.name, np.name, stamp())
+				r.Eventf("reload %d: %s published", k, np.name)
+				r.Probe("c04.pool_reloaded")
+				if nGen[slot] >= 3 {
+					r.Probe("c04.pool_reloaded_twice")
+				}
+				if old.selecting > 0 {
+					r.Probe("c04.reload_while_selection_in_flight")
+				}
+				if len(sentT) > dispatched {
+					r.Probe("c04.reload_while_notification_pending")
+				}
+				if rl.HoldUs >= 0 {
+					r.Sleep(time.Duration(rl.HoldUs) * time.Microsecond)
+				}
+				if cleaned {
+					return
+				}
+				old.state = c04Closing
+				var pnc interface{}
+				func() {
+					defer func() {
+						if x := recover(); x != nil {
+							pnc = x
+						}
+					}()
+					old.sp.close()
+				}()
+				old.state = c04Closed
+				note("reload%d:%s closed@%d", k, old.name, stamp())
+				r.Eventf("reload %d: %s closed", k, old.name)
+				if pnc != nil {
+					r.Violate("C04.panic", "closing pool %s panicked: %v\nhistory: %s", old.name, pnc, history())
+					return
+				}
+			}
+		})
+	}
 	r.WaitTasks()
 	if r.Violated() || r.Aborted() {
 		return
 	}
-	if selecting != 0 {
-		r.Violate("C04.other", "harness accounting: %d selections still marked in flight at the end", selecting)
-		return
+	for _, p := range pools {
+		if p.selecting != 0 {
+			r.Violate("C04.other", "harness accounting: %d selections still marked in flight on pool %s at the end", p.selecting, p.name)
+			return
+		}
+		fairCheck(p, "end of run")
 	}
-	fairCheck("end of run")
 
 	// --- quiescence: the list in force is the one last reported
 	settled := true
 	if watcher {
 		settled = false
-		for i := 0; i < 30 && !settled && !r.Aborted(); i++ {
+		for i := 0; i < 30 && !settled && !r.Aborted() && !r.Violated(); i++ {
 			settled = settle(10 * time.Millisecond)
 		}
+		if r.Violated() {
+			return
+		}
 		if settled && (len(fake.pending) != 0 || len(fake.notify) != 0) {
-			r.Probe("c04.watcher_notifications_left_unhandled")
-			settled = false
+			r.Violate("C04.discovery-report-lost", "%d of %d registry notifications were never turned into a report although %d pool(s) watch the service and every goroutine is idle\nhistory: %s",
+				len(sentT)-dispatched, len(sentT), c04Watching(pools), history())
+			return
 		}
 	}
 	if settled && !r.Aborted() && !r.Violated() {
 		r.Probe("c04.final_requests_after_quiescence")
 		r.Go("final", func() {
-			for i := 0; i < 2; i++ {
-				if r.Violated() || r.Aborted() {
-					return
+			for s := 0; s < nSlots; s++ {
+				for i := 0; i < 2; i++ {
+					if r.Violated() || r.Aborted() {
+						return
+					}
+					op := c04Op{IP: "203.0.113.77", Port: 4000 + i, Mode: "remote", HoldUs: -1, Slot: s}
+					doOp(fmt.Sprintf("f%d.%d", s, i), fmt.Sprintf("/final/%d/%d", s, i), op)
 				}
-				op := c04Op{IP: "203.0.113.77", Port: 4000 + i, Mode: "remote", HoldUs: -1}
-				doOp(fmt.Sprintf("f.%d", i), fmt.Sprintf("/final/%d", i), op)
 			}
 		})
 		r.WaitTasks()
 		if r.Violated() || r.Aborted() {
 			return
 		}
-		fairCheck("after the final requests")
+		for _, p := range pools {
+			fairCheck(p, "after the final requests")
+		}
 	}
 	if watcher {
 		cleanup(true)
@@ -1370,10 +1879,24 @@ func c04Exec(r *sim.Run, sci interface{}) {
 	if noServer {
 		r.Probe("c04.no_server_failure_on_empty_list")
 	}
+	if weightOnlyServed {
+		r.Probe("c04.selection_after_weight_only_report")
+	}
+	if tagOnlyServed {
+		r.Probe("c04.selection_after_tag_only_report")
+	}
+	if servedAfterReload {
+		r.Probe("c04.selection_on_reloaded_pool")
+	}
+	if reportAfterReloadServed {
+		r.Probe("c04.selection_after_report_to_reloaded_pool")
+	}
 	served := 0
-	for _, g := range model.gens {
-		if g.k > 0 {
-			served++
+	for _, p := range pools {
+		for _, g := range p.model.gens {
+			if g.k > 0 {
+				served++
+			}
 		}
 	}
 	if served >= 2 {
@@ -1384,8 +1907,12 @@ func c04Exec(r *sim.Run, sci interface{}) {
 	}
 	var sig strings.Builder
 	fmt.Fprintf(&sig, "%s|w=%v|r=%d|", policy, watcher, maxAttempts)
-	for _, g := range model.gens {
-		fmt.Fprintf(&sig, "%s:%d:%d,", g.src, g.n, g.total)
+	for _, p := range pools {
+		sig.WriteString(p.name + "[")
+		for _, g := range p.model.gens {
+			fmt.Fprintf(&sig, "%s:%d:%d,", g.src, g.n, g.total)
+		}
+		sig.WriteString("]")
 	}
 	for _, h := range hist {
 		if i := strings.IndexByte(h, '@'); i > 0 {
@@ -1394,6 +1921,17 @@ func c04Exec(r *sim.Run, sci interface{}) {
 		}
 	}
 	r.SetSig(sig.String())
+}
+
+// c04Watching counts the pools that are registered watchers of the service.
+func c04Watching(pools []*c04Pool) int {
+	n := 0
+	for _, p := range pools {
+		if p.state == c04Live {
+			n++
+		}
+	}
+	return n
 }
 
 func c04Stack() string {
